@@ -154,6 +154,38 @@ theorem derived_splitD (Pi : Nat) (plains : List Nat) : ∀ (es : List Ev) (inn 
       refine (List.Perm.cons _ (ih inn herr)).trans ?_
       exact List.perm_middle.symm
 
+theorem innerOK_dot (Pi : Nat) (plains : List Nat) : ∀ (es : List Ev) (inn : List (Nat × TV)),
+    (runWith (dotAdd Pi) (es.filter (isInner Pi)) ((inn.lookup 0).getD []) []).err = none →
+    InnerOK (nestItemsD Pi plains) es inn := by
+  intro es
+  induction es with
+  | nil => intro inn _; trivial
+  | cons ev es ih =>
+    obtain ⟨p, t⟩ := ev
+    intro inn herr
+    simp only [InnerOK, findSub_nestD]
+    by_cases hp : p < Pi
+    · have hf1 : ((p, t) :: es).filter (isInner Pi) = (p, t) :: es.filter (isInner Pi) := by
+        simp [List.filter_cons, isInner, hp]
+      rw [hf1] at herr
+      simp only [hp, if_true, innerAdd, List.length_range]
+      simp only [runWith] at herr
+      generalize hr : dotAdd Pi ((inn.lookup 0).getD []) p (Elem.ofTok p t) = r at herr ⊢
+      cases hre : r.err with
+      | some x => rw [hre] at herr; simp at herr
+      | none =>
+        rw [hre] at herr
+        simp only at herr
+        rw [runWith_shift] at herr
+        simp only at herr
+        have hl : ((setI inn 0 r.tv).lookup 0).getD [] = r.tv := by rw [lookup_setI]; rfl
+        exact ⟨rfl, ih (setI inn 0 r.tv) (by rw [hl]; exact herr)⟩
+    · have hf1 : ((p, t) :: es).filter (isInner Pi) = es.filter (isInner Pi) := by
+        simp [List.filter_cons, isInner, hp]
+      rw [hf1] at herr
+      simp only [hp, if_false]
+      exact ih inn herr
+
 theorem runWith_eq_runWithE (add : TV → Nat → Elem → Res) : ∀ (es : List Ev) (tv : TV) (out : List Emit),
     runWith add es tv out = runWithE add (es.map liftEv) tv out := by
   intro es
@@ -401,6 +433,7 @@ theorem canonEv_plain {M : Nat} (items : List Item) {e : Ev} (he : e.1 < M) :
     exactly one combination per complete tag of `D`. -/
 theorem nested_dot_any_order {Pi M : Nat} {plains : List Nat} (S es : List Ev) (h : WFNestD Pi M plains S)
     (hp : es.Perm S) :
+    (runNested (nestItemsD Pi plains) es).err = none ∧
     ∃ D N, (D.map (canonEv M)).Perm (derivedSpecD Pi plains S) ∧
       EmRel (runNested (nestItemsD Pi plains) es).out N ∧ N.Perm (specE (plains.length + 1) D) := by
   have hin : (es.filter (isInner Pi)).Perm (S.filter (isInner Pi)) := hp.filter _
@@ -477,9 +510,11 @@ theorem nested_dot_any_order {Pi M : Nat} {plains : List Nat} (S es : List Ev) (
       simp only [plainEv, Elem.ofTok, List.mem_singleton] at hy
       rw [hy]; rfl
   have hlen : (nestItemsD Pi plains).length = plains.length + 1 := by simp [nestItemsD]
-  obtain ⟨_, N, hN1, hN2⟩ := dotElems_any_order _ _ hwfD hokD (List.Perm.refl _)
-  refine ⟨_, N, hD, ?_, hN2⟩
-  rw [runNested_out, hlen]
-  exact hN1
+  obtain ⟨hE, N, hN1, hN2⟩ := dotElems_any_order _ _ hwfD hokD (List.Perm.refl _)
+  refine ⟨?_, _, N, hD, ?_, hN2⟩
+  · rw [runNested_err _ _ (innerOK_dot Pi plains es [] (by simpa using herr0)), hlen]
+    exact hE
+  · rw [runNested_out, hlen]
+    exact hN1
 
 end SFV.Comb
